@@ -45,6 +45,18 @@ def judge_a(case: Dict[str, Any], ap: Dict[str, Any], af: Dict[str, Any]) -> Dic
     wire_txt = json.dumps(case["wire"], ensure_ascii=True)
     if len(wire_txt) > 300:
         wire_txt = wire_txt[:300] + "..."
+    label = str(case.get("label") or "")
+    if label.startswith("schema-keyword:"):
+        # the JSON-Schema grammar says these objects are valid: a backend that turns one down does not view the wire losslessly
+        kw = label[len("schema-keyword:"):].split("@")[0]
+        rej = {n: a for n, a in (("pydantic", ap), ("fallback", af)) if not a.get("ok")}
+        if rej:
+            backend = "both" if len(rej) == 2 else next(iter(rej))
+            a = next(iter(rej.values()))
+            return {"status": "spec-valid-value-rejected", "deferred": [],
+                    "violations": [({"class": "spec-valid-value-rejected", "model": model, "member": "schema-keyword:" + kw, "backend": backend},
+                                    f"{model} <- {wire_txt}: a JSON Schema whose keyword {kw.split('=')[0]} has the form {kw.split('=')[1]} is "
+                                    f"valid, {backend} rejected it ({a.get('exc')}: {a.get('detail')})")]}
     if not ap["ok"]:
         return {"status": "not-spec-valid", "violations": [], "deferred": []}
     if c09.broken_invariants(case):
@@ -749,6 +761,7 @@ def run(tier: str, only=None) -> core.Result:
         "numbers are compared by value (1 and 1.0 are the same JSON number); everything else exactly",
         "an object the fallback backend rejects although Pydantic accepts it is a backend disagreement (C09) and only counted here (fallback_only_losses_deferred_to_C09 / rejected-by-fallback); losses under either backend are reported here",
         "transport parameter classes (chuk_mcp.transports.*) are local configuration, not protocol models: driven, differences listed under unjudged_config_class_differences",
+        "models that are a JSON Schema (they declare properties and type/required) additionally get every JSON-Schema keyword in each of its forms (boolean / schema object / array or map of schemas / literal) at their own level, whether or not the class declares a member of that name; for these the keyword grammar is the reference of validity, so a rejection is reported instead of being counted as not spec-valid",
         "a null inside a free-form value (tool arguments, schemas, _meta, unknown object members) is data and must come back as null; only null-valued members OF A MODEL (declared or unknown, as Pydantic's exclude_none treats them) may be missing from the exclude_none view",
         "order of dump calls: per class every ordered pair of two different dump calls (model_dump / model_dump_json, plain / by-alias) on two objects, each pair in a process forked for it from a worker that never validates or dumps; the second call must give what it gives when made first",
         "input mutated after validation: judged absolutely only at declared containers (the object itself, nested models, members declared List[...] / Dict[...] / dict and declared items of such lists); inside free-form values (Any, values of Dict[str, Any], unknown members) both backends keep the caller's objects - counted, not judged (C09 demands that the backends agree there)",
